@@ -338,7 +338,15 @@ def accessor_steps(sw, root, quick, rnd):
                     sw.fail('C08', key + ':c01', f'after put_docstr({t!r}): {v}')
                     sw.fail('C01', key + ':c01', f'after put_docstr({t!r}): {v}')
                 sw.post_edit(r, key, f'put_docstr({t!r})', v)
-        if isinstance(a, ast.Constant) and not under_fstring(root.a, path) and (not quick or rnd.random() < 0.2):
+        in_pattern = False
+        if isinstance(a, ast.Constant):
+            q_ = f.parent
+            while q_ is not None:
+                if isinstance(q_.a, ast.pattern):
+                    in_pattern = True
+                    break
+                q_ = q_.parent
+        if isinstance(a, ast.Constant) and not under_fstring(root.a, path) and (not quick or rnd.random() < 0.2 or in_pattern):
             # primitive values written through the accessor: "AST values always equal what the new source text denotes"
             for val in CONSTANT_VALUES:
                 r = sw.fresh()
@@ -346,7 +354,7 @@ def accessor_steps(sw, root, quick, rnd):
                 if not n:
                     continue
                 sw.ev += 1
-                key = f'constant_value@{slot_desc(root.a, path)}:{sw.name}:{path}:{val!r}'
+                key = f'constant_value{"[pattern]" if in_pattern else ""}@{slot_desc(root.a, path)}:{sw.name}:{path}:{val!r}'
                 src0, d0 = r.src, dump(r.a)
                 sw.pre_edit(r)
                 try:
